@@ -52,6 +52,11 @@ inductive Outcome where
   | crashed
   deriving DecidableEq, Repr
 
+/-- staging files are numbered in order of creation: the counter advances only past the
+    staging files whose creation actually happened -/
+def bumpStaging (ctr : Nat) (evs : List Ev) : Nat :=
+  evs.foldl (fun c e => match e with | .creat (.staging n) _ => max c (n + 1) | _ => c) ctr
+
 /-- run one call's script under the current plan -/
 def World.exec (w : World) (evs : List Ev) (commit : World → World) : World × Outcome :=
   match w.plan with
@@ -64,11 +69,13 @@ def World.exec (w : World) (evs : List Ev) (commit : World → World) : World ×
         | none => d
         | some l => d.powerLoss (fun f => p.loseAll || l.contains f)
       ({ w with disk := d, trace := w.trace ++ done, handle := none, scan := none, txs := [],
-                plan := none }, .crashed)
+                plan := none, stagingCtr := bumpStaging w.stagingCtr done }, .crashed)
     else
-      let w' := commit { w with disk := w.disk.applyAll evs, trace := w.trace ++ evs, plan := none }
+      let w' := commit { w with disk := w.disk.applyAll evs, trace := w.trace ++ evs, plan := none,
+                                stagingCtr := bumpStaging w.stagingCtr evs }
       (w', .completed n)
   | none =>
-    (commit { w with disk := w.disk.applyAll evs, trace := w.trace ++ evs }, .completed (countedCount evs))
+    (commit { w with disk := w.disk.applyAll evs, trace := w.trace ++ evs,
+                     stagingCtr := bumpStaging w.stagingCtr evs }, .completed (countedCount evs))
 
 end CasModel
